@@ -214,6 +214,15 @@ func newTunnelChannel(stream tunnelStreamClient, tunnelMetadata metadata.MD, ser
 		awaitSettings:       make(chan struct{}),
 	}
 	go c.recvLoop()
+	go func() {
+		// The receive loop may be unable to notice that the underlying stream
+		// has ended: without flow control it can be parked handing a frame to
+		// an RPC whose responses nobody is reading. Finish the in-flight RPCs
+		// from here (which also releases the loop, so that it can record the
+		// cause).
+		<-ctx.Done()
+		c.close(nil)
+	}()
 
 	// make sure we've gotten settings from the server before we return
 	select {
